@@ -59,7 +59,7 @@ def pest_builtin_table(pg):
         strs = re.findall(r'match_string\s*\(\s*("(?:\\.|[^"])*")\s*\)', text)
         calls = re.findall(r"state\s*\.\s*(\w+)\s*\(", text)
         if rng:
-            out[name] = ("ranges", set(rng))
+            out[name] = ("ranges", list(rng))      # in pest's order of alternatives
         elif strs:
             out[name] = ("strings", strs)
         else:
@@ -97,6 +97,22 @@ def ranges_of(tree):
     return None
 
 
+def ranges_list(tree):
+    """Ordered list of (lo, hi) when a class tree is an ordered choice of single-character ranges, else None."""
+    tree = flatten(tree)
+    if tree[0] == "PRIM" and tree[1] == "match_range":
+        return [(tree[2], tree[3])]
+    if tree[0] == "CHOICE":
+        out = []
+        for k in tree[1:]:
+            r = ranges_list(k)
+            if r is None:
+                return None
+            out += r
+        return out
+    return None
+
+
 PEST_CALL_TO_REPO = {"skip": "ANY", "end_of_input": "EOI", "start_of_input": "SOI", "stack_peek": "PEEK", "stack_match_peek": "PEEK_ALL",
                      "stack_pop": "POP", "stack_match_pop": "POP_ALL", "stack_drop": "DROP"}
 
@@ -106,7 +122,23 @@ def run_opmap(ctx):
     return run(ctx, only_opmap=True)
 
 
-def run(ctx, only_opmap=False):
+def run_builtin_order(ctx):
+    """R01-OPMAP / R01-BUILTIN plus the order of alternatives in built-in aliases (a C17 matter: which variant a character lands in)."""
+    return run(ctx, only_opmap=True, with_order=True)
+
+
+class _NoRule:
+    def inst(self, *a, **k):
+        pass
+
+    def violate(self, *a, **k):
+        pass
+
+    def require(self, *a, **k):
+        pass
+
+
+def run(ctx, only_opmap=False, with_order=False):
     units = ["core", "fx_macros", "fx_ops", "fx_pestgen"]
     fs = facts.load(*units)
     world = nodes.World(fs, ["pest_typed", "fx_macros"])
@@ -114,7 +146,7 @@ def run(ctx, only_opmap=False):
     ctx.analysed = {"crates": ["pest_typed", "fx_macros", "fx_ops (derive output, optimizer on/off)", "pest_generator (built-in table)"]}
     if not only_opmap:
         run_classes(ctx, fs, world, repo)
-    run_opmap_part(ctx, fs, world, repo)
+    run_opmap_part(ctx, fs, world, repo, with_order)
 
 
 def run_classes(ctx, fs, world, repo):
@@ -202,12 +234,14 @@ def run_classes(ctx, fs, world, repo):
 
 
 
-def run_opmap_part(ctx, fs, world, repo):
+def run_opmap_part(ctx, fs, world, repo, with_order=False):
     # ---- R01-OPMAP
     ro = ctx.rule("R01-OPMAP", "for each pest operator form the generated type has the class tree of that operator (children in grammar order), "
                                "optimizer on and off")
     rb = ctx.rule("R01-BUILTIN", "built-in rule aliases agree with pest_generator's table: same names, same closed intervals, NEWLINE strings in a "
                                  "prefix-consistent order, stack/position built-ins mapped to the node of the same role")
+    rbo = ctx.rule("R01-BUILTIN-ORDER", "built-in aliases that are choices of character ranges list their alternatives in pest's order") \
+        if with_order else _NoRule()
     ct = tt.ClassTrees(world)
     ex = tt.load_expect("fx_ops")
     pg = fs.get("pest_generator")
@@ -240,6 +274,14 @@ def run_opmap_part(ctx, fs, world, repo):
                         nrm = lambda st: None if st is None else set((norm_char(a), norm_char(b)) for a, b in st)
                         if nrm(rg) == nrm(p[1]):
                             rb.inst(kb, None, "ok", {"intervals": sorted(p[1])})
+                            rl_ = ranges_list(g)
+                            mine = [(norm_char(a), norm_char(b)) for a, b in (rl_ or [])]
+                            theirs = [(norm_char(a), norm_char(b)) for a, b in p[1]]
+                            if mine == theirs:
+                                rbo.inst(kb, None, "ok", {"order": p[1]})
+                            else:
+                                rbo.violate(kb, "alternatives are tried / stored in the order %s, pest's %s lists %s: the variant a character "
+                                                "lands in is not the position of its alternative" % (rl_, name, p[1]))
                         else:
                             rb.violate(kb, "matches intervals %s, pest's %s is %s" % (sorted(rg) if rg else g, name, sorted(p[1])))
                         return True
@@ -308,6 +350,7 @@ def run_opmap_part(ctx, fs, world, repo):
         rb.inst("unicode nodes", None, "ok", {"properties": len(pnames), "nodes": len(names)})
     ro.require(50, "fixture rules")
     rb.require(18, "built-ins")
+    rbo.require(4, "range aliases")
     ctx.assume("acceptance and offsets on inputs, pest's optimizer and the meaning of the Unicode tables are not decided; pest_generator's table is the oracle for built-ins")
     ctx.assume("pest::Stack nested clear_snapshot is known unsound for pop-then-clear-then-outer-restore (dependency; see C05)")
     ctx.assume("fixture expectations (fixtures/fx_ops/expect.json) are authored from PEG semantics of pest's operators and pest_meta's documented unrolling of counted repetitions")
